@@ -365,6 +365,13 @@ def genFork (rng : Rng) (len : Nat) : Rng × Array String :=
     else if scenario = 2 then s
     else if scenario = 3 then ((List.range (len / 2)).foldl (fun s _ => s.stepRandom p) s).dangling
     else (List.range (len / 2)).foldl (fun s _ => s.stepRandom p) s
+  -- one time in three the target handle already holds a fresh graph (same N; same or another capacity): the
+  -- harness then clones with `clone_from`
+  let (rng, pre) := s.rng.below 6
+  let s := { s with rng := rng }
+  let s := if pre = 0 then { s with lines := s.lines.push s!"new g1 {s.n} {s.cap}" }
+    else if pre = 1 then { s with lines := s.lines.push s!"new g1 {s.n} {s.cap + 3}" }
+    else s
   let s := { s with lines := s.lines.push "clone g0 g1" }
   let s := cloneQueries s "g0" "g1" 2
   let s := twoHandles s false p (len / 4) (len / 4)
